@@ -312,10 +312,20 @@ func MakeTLSConfig(configs []*Config) (*tls.Config, error) {
 			return nil, err
 		}
 
+		// configs are keyed by their hostname pattern; during
+		// TLS handshakes, configs are loaded based on the
+		// hostname pattern according to client's ServerName
+		// (SNI) value. The unspecified addresses are catch-alls,
+		// i.e. the same SNI name as the empty hostname.
+		key := cfg.Hostname
+		if key == "0.0.0.0" || key == "::" {
+			key = ""
+		}
+
 		// if an existing config with this hostname was already
 		// configured, then they must be identical (or at least
 		// compatible), otherwise that is a configuration error
-		if otherConfig, ok := configMap[cfg.Hostname]; ok {
+		if otherConfig, ok := configMap[key]; ok {
 			if err := assertConfigsCompatible(cfg, otherConfig); err != nil {
 				return nil, fmt.Errorf("incompatible TLS configurations for the same SNI "+
 					"name (%s) on the same listener: %v",
@@ -323,17 +333,10 @@ func MakeTLSConfig(configs []*Config) (*tls.Config, error) {
 			}
 		}
 
-		// key this config by its hostname (overwrites
-		// configs with the same hostname pattern; should
-		// be OK since we already asserted they are roughly
-		// the same); during TLS handshakes, configs are
-		// loaded based on the hostname pattern according
-		// to client's ServerName (SNI) value
-		if cfg.Hostname == "0.0.0.0" || cfg.Hostname == "::" {
-			configMap[""] = cfg
-		} else {
-			configMap[cfg.Hostname] = cfg
-		}
+		// (overwrites configs with the same hostname pattern;
+		// should be OK since we already asserted they are
+		// roughly the same)
+		configMap[key] = cfg
 	}
 
 	// Is TLS disabled? By now, we know that all
